@@ -1049,7 +1049,7 @@ class PolarsModel(data_algebra.data_model.DataModel):
         if how != "right":
             coalesce_columns = set(op.sources[0].columns_produced()).intersection(
                 op.sources[1].columns_produced()
-            ) - set(op.on_a)
+            ) - set([c_a for c_a, c_b in zip(on_a, on_b) if c_a == c_b])
             orphan_keys = [c for c in on_b if c not in set(on_a)]
             if how == "outer":
                 # Polars coalesces either all key pairs or none: do it by hand, so that
@@ -1072,22 +1072,30 @@ class PolarsModel(data_algebra.data_model.DataModel):
                 coalesce=(how != "outer"),
             )
             if len(coalesce_columns) > 0:
+                # the right hand copy of a shared column: the key copy if it is a right key
                 res = res.with_columns(
                     [
                         pl.when(pl.col(c).is_null())
-                        .then(pl.col(c + "_da_right_tmp"))
+                        .then(
+                            pl.col(
+                                f"{c}_da_join_tmp_key"
+                                if c in orphan_keys
+                                else c + "_da_right_tmp"
+                            )
+                        )
                         .otherwise(pl.col(c))
                         .alias(c)
                         for c in coalesce_columns
                     ]
                 )
+            orphan_keys = [c for c in orphan_keys if c not in coalesce_columns]
             if len(orphan_keys) > 0:
                 res = res.rename({f"{c}_da_join_tmp_key": c for c in orphan_keys})
         else:
             # simulate right join with left join
             coalesce_columns = set(op.sources[0].columns_produced()).intersection(
                 op.sources[1].columns_produced()
-            ) - set(op.on_b)
+            ) - set([c_a for c_a, c_b in zip(on_a, on_b) if c_a == c_b])
             orphan_keys = [c for c in on_a if c not in set(on_b)]
             input_right = inputs[0]
             if len(orphan_keys) > 0:
@@ -1102,15 +1110,25 @@ class PolarsModel(data_algebra.data_model.DataModel):
                 suffix="_da_left_tmp",
             )
             if len(coalesce_columns) > 0:
+                # the left hand copy of a shared column: the key copy if it is a left key
+                left_copy = {
+                    c: (
+                        f"{c}_da_join_tmp_key"
+                        if c in orphan_keys
+                        else c + "_da_left_tmp"
+                    )
+                    for c in coalesce_columns
+                }
                 res = res.with_columns(
                     [
-                        pl.when(pl.col(c + "_da_left_tmp").is_null())
+                        pl.when(pl.col(left_copy[c]).is_null())
                         .then(pl.col(c))
-                        .otherwise(pl.col(c + "_da_left_tmp"))
+                        .otherwise(pl.col(left_copy[c]))
                         .alias(c)
                         for c in coalesce_columns
                     ]
                 )
+            orphan_keys = [c for c in orphan_keys if c not in coalesce_columns]
             if len(orphan_keys) > 0:
                 res = res.rename({f"{c}_da_join_tmp_key": c for c in orphan_keys})
         res = res.select(op.columns_produced())
